@@ -104,6 +104,11 @@ class Probe:
         self._hook('cond')
         return True
 
+    def tpost(self, j, after, time):
+        self.log.append(('tpost', j, after, time))
+        self._hook('cond')
+        return True
+
     def obs(self, tag, time):
         self.log.append(('obs', tag, time))
         return True
